@@ -598,11 +598,11 @@ class AxEnv:
     def _lat(self, rng):
         t = self.i.t or 4
         r = rng.random()
-        if r < 0.2:
+        if r < 0.15:
             return None
-        if r < 0.6:
-            return max(0, rng.choice((t - 2, t - 1, t, t + 1, t + 2)))
-        return rng.randint(0, max(1, min(t, 5)))
+        if r < 0.5:
+            return max(0, rng.choice((t - 2, t - 1, t, t, t + 1, t + 2)))
+        return rng.randint(0, max(1, min(t - 1, 5)))
 
     def letter(self, rng, c, last):
         inst = self.i
@@ -615,9 +615,9 @@ class AxEnv:
                 awr, wr, bv, _ = last[bw + 4 * i: bw + 4 * i + 4]
                 m = self.mw[i]
                 if m["st"] == "addr":
-                    if m["aw"] and awr:
+                    if m["aw"] and awr and pl[4 * i]:
                         m["aw"] = 0
-                    if m["w"] and wr:
+                    if m["w"] and wr and pl[4 * i + 2]:
                         m["w"] = 0
                     if not m["aw"] and not m["w"]:
                         m["st"] = "resp"
@@ -628,7 +628,7 @@ class AxEnv:
                 arr, rv, _, _, rl = last[br_ + 5 * i: br_ + 5 * i + 5]
                 m = self.mr[i]
                 if m["st"] == "addr":
-                    if arr:
+                    if arr and pl[4 * n + 4 * k + 3 * i]:
                         m["st"] = "resp"
                 elif m["st"] == "resp":
                     if rv and pl[4 * n + 4 * k + 3 * i + 2] and (rl or not inst.full):
@@ -645,14 +645,18 @@ class AxEnv:
                 elif awv:
                     s["aw_seen"] += 1
                 else:
+                    if s["aw_seen"]:
+                        s["lat"] = self._lat(rng)          # request went away (timed out): new mode next time
                     s["aw_seen"] = 0
                 if wv and p_wr:
                     s["got_w"] += 1
                     s["w_seen"] = 0
-                    s["wlat"] = self._lat(rng)
+                    s["wlat"] = s["lat"] if rng.random() < 0.7 else self._lat(rng)
                 elif wv:
                     s["w_seen"] += 1
                 else:
+                    if s["w_seen"]:
+                        s["wlat"] = s["lat"] if rng.random() < 0.7 else self._lat(rng)
                     s["w_seen"] = 0
                 if s["got_aw"] and s["got_w"]:
                     s["got_aw"] -= 1
@@ -673,6 +677,8 @@ class AxEnv:
                 elif arv:
                     s["seen"] += 1
                 else:
+                    if s["seen"]:
+                        s["lat"] = self._lat(rng)
                     s["seen"] = 0
                 if p_rv and rrdy and s["pend"]:
                     s["pend"][0][1] -= 1
